@@ -13,7 +13,11 @@ RULE = ('gin-machine/macros: 1-3 parse phases; macro definitions, uses (%m) and 
         'ambiguous names; calls after each phase; finalize. Independent predicate: each use receives the value of the LAST '
         'definition preceding the call (computed from the op list), k uses of a macro bound to @g() run g k times, a '
         'constant use delivers the stored object. non-trivial = a use that precedes the (re)definition it ends up seeing, '
-        'or a constant abbreviated by a proper suffix while another constant shares a shorter suffix.')
+        'or a constant abbreviated by a proper suffix while another constant shares a shorter suffix. Dict literals whose KEYS '
+        'are two or more different macros (also scope-like names differing only in their prefix, macros bound to @g(), '
+        'defined before / after the use or never): the delivered dict, the number of runs of g and the verdict of finalize '
+        'are computed from the op list alone (last successful definition of every macro, last successful binding of every '
+        'parameter), never from what gin stored.')
 TRUSTED_BASE = c01.TRUSTED_BASE
 ASSUMPTIONS = []
 
@@ -21,6 +25,133 @@ ASSUMPTIONS = []
 # one being bound says nothing about another)
 MACROS = ['mm', 'nn', 's1/mm', 's1', 's1/s2/mm']
 CONSTS = ['K', 'a.K', 'b.a.K', 'x.Y', 'Y', 'c.Z']
+# macros that stand in KEY position of dict literals.  What they are bound to is always hashable, and the values of two
+# different key macros never coincide (value domains are disjoint: equal keys would merge, which is CPython's business and
+# not modelled).  's1/hk' and 's2/hk' differ only in the scope-like prefix.
+KEYMACROS = ['hk', 'kk', 's1/hk', 's2/hk']
+KEYCONSTS = [('q.KA', 'KA', 'ka'), ('q.r.KB', 'r.KB', 'kb'), ('q.r.KC', 'KC', 'kc')]
+SIMPLE_OPS = {'pbind', 'call', 'with', 'constant', 'query', 'finalize', 'locked', 'dumpcalls', 'dumpconfig'}
+
+
+def key_value(rng, m, helper):
+  """a value for the key macro m: an int or a string of m's own domain, or a fresh object per use (@helper())"""
+  i = KEYMACROS.index(m)
+  x = rng.random()
+  if x < 0.45:
+    return ['i', 10 * i + rng.randint(0, 9)]
+  if x < 0.8:
+    return ['s', 'k%d%s' % (i, rng.choice('abc'))]
+  return ['ref', [], helper['sel'], True]
+
+
+class Skip(Exception):
+  """the op list alone does not determine the value"""
+
+
+class AnyRet:
+  """what an evaluated reference to the configurable `sel` yields: the result of a fresh run"""
+
+  def __init__(self, sel):
+    self.sel = sel
+
+  def __repr__(self):
+    return '<result of a fresh run of %s>' % self.sel
+
+
+def json_macro_refs(v):
+  """(name, evaluated) of every macro reference anywhere in a JSON value, dict keys included"""
+  t = v[0]
+  if t == 'macro':
+    yield (v[1], True)
+  elif t == 'ref' and v[2] == 'gin.macro':
+    yield ('/'.join(v[1]), bool(v[3]))
+  elif t in ('l', 't'):
+    for x in v[1]:
+      yield from json_macro_refs(x)
+  elif t == 'd':
+    for k, x in v[1]:
+      yield from json_macro_refs(k)
+      yield from json_macro_refs(x)
+
+
+def const_match(name, consts):
+  return [c for c in consts if c == name] or [c for c in consts if c.endswith('.' + name)]
+
+
+def full_sel(x, sels):
+  m = [q for q in sels if q == x] or [q for q in sels if q.endswith('.' + x)]
+  return m[0] if len(m) == 1 else None
+
+
+class Bound:
+  """one successful binding as the op list shows it: the JSON value; the macro uses in it (name, evaluated); and, for the
+  %names that named a constant when the binding was parsed, that constant's (canonical) value"""
+
+  def __init__(self, v, consts):
+    self.v = v
+    self.cres, self.refs = {}, []
+    for nm, ev in json_macro_refs(v):
+      cm = const_match(nm, consts)
+      if cm:
+        self.cres[nm] = consts[cm[0]]
+      else:
+        self.refs.append((nm, ev))
+
+
+def expect(b, binds, sels, runs, depth=0, v=None):
+  """the canonical form of what a consumer must receive for the binding b, from the property text: every %m is the value
+  of the LAST definition of m (binds[('macro', m)]), evaluated anew at this use; a dict literal is built item by item.
+  `runs` collects one entry per evaluated reference to a registered configurable.  Raises Skip where the op list does not
+  decide, KeyError(name) for a macro that no definition binds."""
+  if depth > 8:
+    raise Skip
+  v = b.v if v is None else v
+  t = v[0]
+  if t == 'macro' or (t == 'ref' and v[2] == 'gin.macro' and v[3]):
+    name = v[1] if t == 'macro' else '/'.join(v[1])
+    if name in b.cres:
+      return b.cres[name]
+    if ('macro', name) not in binds:
+      parts = name.split('/')
+      if any(('macro', '/'.join(parts[:i])) in binds for i in range(1, len(parts))):
+        raise Skip           # gin.macro.value bound under a scope that is a proper prefix of the name: C03's inheritance, not judged here
+      raise KeyError(name)
+    return expect(binds[('macro', name)], binds, sels, runs, depth + 1)
+  if t == 'ref':
+    q = full_sel(v[2], sels)
+    if q is None or not v[3]:
+      raise Skip
+    runs.append(q)
+    return AnyRet(q)
+  if t in ('l', 't'):
+    return T('L' if t == 'l' else 'T', *[expect(b, binds, sels, runs, depth, x) for x in v[1]])
+  if t == 'd':
+    items = []
+    for k, x in v[1]:
+      ek = expect(b, binds, sels, runs, depth, k)
+      ex = expect(b, binds, sels, runs, depth, x)
+      if isinstance(ek, T) and ek.tag not in ('T', 'Obj'):
+        raise Skip             # unhashable key
+      for it in items:
+        if not isinstance(ek, AnyRet) and not isinstance(it[0], AnyRet) and it[0] == ek:
+          it[1] = ex           # an equal key: the entry keeps its place and takes the later value
+          break
+      else:
+        items.append([ek, ex])
+    return T('D', *items)
+  if t in ('n', 'b', 'i', 's'):
+    return c01.canon_plain(v)
+  raise Skip
+
+
+def matches(want, got):
+  if isinstance(want, AnyRet):
+    return isinstance(got, T) and got.tag == 'Ret' and got.args[0] == want.sel
+  if isinstance(want, T) or isinstance(got, T):
+    return isinstance(want, T) and isinstance(got, T) and want.tag == got.tag and matches(want.args, got.args)
+  if isinstance(want, list) or isinstance(got, list):
+    return isinstance(want, list) and isinstance(got, list) and len(want) == len(got) and all(matches(a, b) for a, b in zip(want, got))
+  return type(want) is type(got) and want == got
 
 
 def uses_of(v):
@@ -77,7 +208,27 @@ class MacroEngine(c01.CallEngine):
                 ['pbind', 's1/s2/mm', ['i', 3]], ['pbind', 'f.b', ['macro', 's1/s2']], ['finalize'], ['locked'], ['dumpconfig']]},
             {'regs': [f, g], 'ops': [
                 ['pbind', 's1/mm', ['i', 1]], ['pbind', 'f.a', ['l', [['macro', 's1/s2/mm'], ['macro', 's1/mm']]]], ['finalize'], ['locked'],
-                ['pbind', 's1/s2/mm', ['i', 2]], ['call', 'm.f', [], []], ['finalize'], ['locked'], ['dumpcalls']]}]
+                ['pbind', 's1/s2/mm', ['i', 2]], ['call', 'm.f', [], []], ['finalize'], ['locked'], ['dumpcalls']]},
+            # dict literals whose keys are several different macros: uses first, definitions later; one key re-bound; scope-like
+            # names that differ in the prefix only; a key that is never bound
+            {'regs': [f, g], 'ops': [
+                ['pbind', 'f.a', ['d', [[['macro', 'hk'], ['s', 'one']], [['macro', 'kk'], ['s', 'two']], [['s', 'plain'], ['macro', 'mm']]]]],
+                ['pbind', 'f.b', ['l', [['d', [[['macro', 'hk'], ['i', 1]]]], ['d', [[['macro', 'kk'], ['i', 2]]]]]]],
+                ['pbind', 'hk', ['s', 'k1']], ['pbind', 'kk', ['s', 'k2']], ['pbind', 'mm', ['i', 3]], ['call', 'm.f', [], []],
+                ['pbind', 'kk', ['s', 'K2']], ['call', 'm.f', [], []],
+                ['pbind', 'f.b', ['d', [[['macro', 's1/hk'], ['s', 'T']], [['macro', 's2/hk'], ['s', 'E']]]]],
+                ['pbind', 's1/hk', ['s', 'training']], ['pbind', 's2/hk', ['s', 'evaluation']],
+                ['with', 's1', [['call', 'm.f', [], []]]], ['finalize'], ['locked'], ['dumpcalls'], ['dumpconfig']]},
+            {'regs': [f, g], 'ops': [
+                ['pbind', 'hk', ['i', 1]], ['pbind', 'f.a', ['d', [[['macro', 'hk'], ['i', 1]], [['macro', 'undefined'], ['i', 2]]]]],
+                ['call', 'm.f', [], []], ['finalize'], ['locked'], ['dumpconfig']]},
+            # keys that are macros bound to @g() (a fresh object per use: g runs once per key and call), and constants
+            {'regs': [f, g], 'ops': [
+                ['constant', 'q.KA', ['obj', 'ka']], ['constant', 'q.r.KB', ['obj', 'kb']],
+                ['pbind', 'f.a', ['d', [[['macro', 'hk'], ['i', 1]], [['macro', 'kk'], ['i', 2]], [['macro', 's1/hk'], ['macro', 'hk']]]]],
+                ['pbind', 'f.b', ['d', [[['macro', 'KA'], ['i', 1]], [['macro', 'r.KB'], ['macro', 'KA']], [['macro', 'hk'], ['i', 3]]]]],
+                ['pbind', 'hk', ['ref', [], 'g', True]], ['pbind', 'kk', ['ref', [], 'g', True]], ['pbind', 's1/hk', ['i', 20]],
+                ['call', 'm.f', [], []], ['call', 'm.f', [], []], ['finalize'], ['locked'], ['dumpcalls'], ['dumpconfig']]}]
 
   def gen(self, rng, tier):
     regs = []
@@ -88,13 +239,18 @@ class MacroEngine(c01.CallEngine):
     consumer, helper = regs[0], regs[1]
     ops = []
     defined_consts = []
+    kc_defined = set()
     for phase in range(rng.randint(1, 3)):
       for _ in range(rng.randint(1, 5)):
         r = rng.random()
         if r < 0.35:      # definition
           m = rng.choice(MACROS)
           x = rng.random()
-          if x < 0.6:
+          if x < 0.12:
+            # (re)definition of a key macro, within its own domain
+            m = rng.choice(KEYMACROS)
+            v = key_value(rng, m, helper)
+          elif x < 0.6:
             v = ginm.gen_plain(rng, 1)
           elif x < 0.8:
             v = ['ref', [], helper['sel'], rng.random() < 0.7]
@@ -106,6 +262,7 @@ class MacroEngine(c01.CallEngine):
           m = rng.choice(MACROS + ['undefined'] if rng.random() < 0.9 else ['undefined'])
           v = ['macro', m]
           y = rng.random()
+          after = []
           if y < 0.3:
             v = ['l', [['macro', m], ['macro', rng.choice(MACROS)], ['i', 0]]]
           elif y < 0.4:
@@ -115,7 +272,39 @@ class MacroEngine(c01.CallEngine):
             if mk == 'hk':
               ops.append(['pbind', 'hk', ['i', rng.randint(0, 9)]])
             v = ['d', [[['macro', mk], ['i', 0]]]]
+          elif y < 0.58:
+            # a dict literal whose KEYS are two or more DIFFERENT macros (each use is its own entry: each is evaluated at
+            # every call and looked at by finalize), defined before the use, after it, in another phase, or never
+            ks = rng.sample(KEYMACROS, rng.randint(2, 3))
+            if rng.random() < 0.35:
+              ks = rng.choice([['s1/hk', 's2/hk'], ['s2/hk', 's1/hk'], ['hk', 's1/hk', 's2/hk']])   # names differing in the prefix only
+            if rng.random() < 0.15:
+              ks[rng.randrange(len(ks))] = 'undefined'
+            if rng.random() < 0.25:
+              # Python-defined constants (distinct objects) among the keys, abbreviated; now and then not defined (yet),
+              # which makes the %name an ordinary, unbound macro
+              for full, ab, oid in rng.sample(KEYCONSTS, rng.randint(1, 2)):
+                ks[rng.randrange(len(ks))] = ab
+                if full not in kc_defined and rng.random() < 0.85:
+                  kc_defined.add(full)
+                  ops.append(['constant', full, ['obj', oid]])
+            items = [[['macro', k], rng.choice([['i', j], ['macro', rng.choice(MACROS)], ['s', 'v%d' % j]])] for j, k in enumerate(ks)]
+            if rng.random() < 0.4:
+              items.insert(rng.randrange(len(items) + 1), [['s', 'plain'], rng.choice([['macro', m], ['i', 7]])])
+            v = ['d', items]
+            if rng.random() < 0.2:
+              v = ['l', [['d', [it]] for it in items]]       # one literal per key: nothing can merge
+            elif rng.random() < 0.2:
+              v = ['d', [[['s', 'outer'], v], [['macro', ks[0]], ['i', -1]]]]
+            for k in ks:
+              if k in KEYMACROS:
+                w = rng.random()
+                if w < 0.45:
+                  ops.append(['pbind', k, key_value(rng, k, helper)])
+                elif w < 0.8:
+                  after.append(['pbind', k, key_value(rng, k, helper)])
           ops.append(['pbind', consumer['sel'] + '.' + p, v])
+          ops += after
         elif r < 0.85:    # constants
           nm = rng.choice(CONSTS + ['1bad', 'a..K', 'K\n', 'a.K\n'])
           ops.append(['constant', nm, ['obj', 'o%d' % len(defined_consts)] if rng.random() < 0.5 else ginm.gen_plain(rng, 0)])
@@ -146,15 +335,25 @@ class MacroEngine(c01.CallEngine):
     macro_def, macro_first_use = {}, {}
     consts = {'gin.REQUIRED': T('REQUIRED')}
     call_iter = iter(m.calls)
+    # the op-list view (nothing below reads gin's store): the last successful binding of every parameter, with the macro
+    # names it uses (a %name that named a constant when the binding was parsed is not a macro use)
+    sels = [c['sel'] for c in case['regs']]
+    simple = all(o[0] in SIMPLE_OPS for o in ginm.flatten_ops(case['ops']))
+    binds = {}       # ('macro', name) / ('param', scope, selector, parameter) -> Bound
     for t in m.trace:
       k, op, exc = t['kind'], t['op'], t['exc']
       if k == 'pbind' and exc is None and '.' not in op[1].rpartition('/')[2]:
         if op[1] in macro_first_use:
           nontrivial = True            # a use precedes this (re)definition
         macro_def[op[1]] = op[2]
+        binds[('macro', op[1])] = Bound(op[2], consts)
       if k == 'pbind' and exc is None and '.' in op[1].rpartition('/')[2]:
-        for nm in ([op[2][1]] if op[2][0] == 'macro' else [x[1] for x in op[2][1] if x[0] == 'macro'] if op[2][0] == 'l' else []):
+        for nm in ([op[2][1]] if op[2][0] == 'macro' else [x[1] for x in op[2][1] if x[0] == 'macro'] if op[2][0] == 'l' else
+                   [r[0] for r in json_macro_refs(op[2])] if op[2][0] == 'd' else []):
           macro_first_use.setdefault(nm, True)
+        scope_, _, sp = op[1].rpartition('/')
+        q, _, prm = sp.rpartition('.')
+        binds[('param', scope_, full_sel(q, sels) or q, prm)] = Bound(op[2], consts)
       if k == 'constant':
         name = op[1]
         import re
@@ -196,12 +395,51 @@ class MacroEngine(c01.CallEngine):
         if bad and exc is None:
           fails.append(('finalize-accepted-bad-macro', 'macro references %r (name, evaluated) are unbound or unevaluated; bound macros %r' %
                         (bad[:3], sorted(bound_macros))))
+        if simple:
+          # the same verdict from the op list alone: every use that stands in a current binding (dict keys included)
+          unbound = sorted({nm for b in binds.values() for nm, _ in b.refs if ('macro', nm) not in binds})
+          uneval = sorted({nm for b in binds.values() for nm, ev in b.refs if not ev})
+          if (unbound or uneval) and exc is None:
+            fails.append(('finalize-accepted-bad-macro', 'the current bindings %r use the macros %r, which no definition binds, and '
+                          '%r without evaluating them; finalize() accepted' %
+                          (['%s = %s' % ('/'.join(x for x in key[1:-1] if x) + ('.' if key[0] == 'param' else '') + (key[-1] if key[0] == 'param' else ''),
+                                         ginm.val_text(b.v))
+                            for key, b in binds.items() if any(nm in unbound or not ev for nm, ev in b.refs)][:3], unbound, uneval)))
       if k == 'call' and t['depth'] >= 0:
         ctx = next(call_iter, None)
         if ctx is None or 'error' in ctx or ctx['log_end'] == ctx['log_start']:
           continue
         own = m.log[ctx['log_end'] - 1]
         env = dict((a, b) for a, b in own[2])
+        if simple and not op[2] and not op[3] and ctx['sel'] in sels:
+          # what the op list says this call must deliver: the last binding of each parameter, every %m in it (at any depth,
+          # in key position too) replaced by the LAST definition of m; one run of g per use of a macro bound to @g()
+          runs, decided = [], True
+          for key, b in binds.items():
+            if key[0] != 'param' or key[2] != ctx['sel']:
+              continue
+            prm = key[3]
+            if key[1] or prm not in env or any(o[0] == 'param' and o[1] and o[2:] == key[2:] for o in binds):
+              decided = False        # scoped bindings: left to the other predicates
+              continue
+            try:
+              want = expect(b, binds, sels, runs)
+            except KeyError as e:
+              fails.append(('macro-use-wrong-value', 'parameter %r = %s uses the macro %s, which no definition binds; the call '
+                            'succeeded and delivered %r' % (prm, ginm.val_text(b.v), e, env[prm])))
+              decided = False
+              continue
+            except Skip:
+              decided = False
+              continue
+            if not matches(want, env[prm]):
+              fails.append(('macro-use-wrong-value', 'parameter %r = %s received %r; the last definitions %r require %r' %
+                            (prm, ginm.val_text(b.v), env[prm],
+                             {nm: ginm.val_text(binds[('macro', nm)].v) for nm, _ in b.refs if ('macro', nm) in binds}, want)))
+          others = sorted(e[0] for e in m.log[ctx['log_start']:ctx['log_end'] - 1])
+          if decided and others != sorted(runs):
+            fails.append(('macro-reference-not-reevaluated', 'the uses of macros bound to evaluated references require the runs %r; '
+                          'ran: %r' % (sorted(runs), others)))
         bound = c01.overlay_spec(ctx['config'], ctx['scope'], ctx['sel'])
         mvals = {}
         for s, q, pd in ctx['config']:
